@@ -45,8 +45,13 @@ type parserWorld struct {
 }
 
 // kernelCode renders the code blocks as calls into the simulation kernel.
-func kernelCode(recv string, withState, viaHelper bool) gen.CodeFunc {
+func kernelCode(recv string, withState, viaHelper, globalViaHelper bool) gen.CodeFunc {
 	return func(s gen.SiteInfo) string {
+		gs := recv + ".globalStore"
+		if globalViaHelper {
+			// ... and the same for the global store
+			gs = "verifGlobal(" + recv + ")"
+		}
 		st := "nil"
 		if withState {
 			st = recv + ".state"
@@ -56,7 +61,7 @@ func kernelCode(recv string, withState, viaHelper bool) gen.CodeFunc {
 				st = "verifStore(" + recv + ")"
 			}
 		}
-		args := fmt.Sprintf("%s.globalStore, %d, %s.pos.line, %s.pos.col, %s.pos.offset, %s.text, %s", recv, s.Site, recv, recv, recv, recv, st)
+		args := fmt.Sprintf("%s, %d, %s.pos.line, %s.pos.col, %s.pos.offset, %s.text, %s", gs, s.Site, recv, recv, recv, recv, st)
 		for _, l := range s.Labels {
 			args += ", " + l
 		}
@@ -94,10 +99,20 @@ func newGenParser(name string, g *gen.Grammar, flags []string) *genParser {
 	}
 	hh.Write([]byte(fmt.Sprint(len(g.Rules), len(g.Sites))))
 	viaHelper := withState && hh.Sum32()%3 == 0
+	// another third (overlapping) reaches the global store through a helper:
+	// the text of their blocks never says globalStore
+	globalViaHelper := (hh.Sum32()/3)%3 == 0
+	helpers := ""
 	if viaHelper {
-		hdr = "{\npackage " + name + "\n\nimport k \"verifsim/kernel\"\n\nfunc verifStore(x *current) map[string]any { return x.state }\n}"
+		helpers += "\nfunc verifStore(x *current) map[string]any { return x.state }\n"
 	}
-	gp.Text = g.Print(gen.PrintOptions{Header: hdr, Code: kernelCode(gp.Receiver, withState, viaHelper)})
+	if globalViaHelper {
+		helpers += "\nfunc verifGlobal(x *current) map[string]any { return x.globalStore }\n"
+	}
+	if helpers != "" {
+		hdr = "{\npackage " + name + "\n\nimport k \"verifsim/kernel\"\n" + helpers + "}"
+	}
+	gp.Text = g.Print(gen.PrintOptions{Header: hdr, Code: kernelCode(gp.Receiver, withState, viaHelper, globalViaHelper)})
 	return gp
 }
 
@@ -172,6 +187,11 @@ var verifMaxExprOpts = map[uint64]Option{}
 
 func verifParse(filename string, input []byte, o *parsersim.Opts, ctx *kernel.Ctx) (val any, err error, esc any, cnt uint64) {
 	opts := []Option{GlobalStore("sim", ctx)}
+	if o.NoGlobalOpt {
+		opts = nil
+		simrt.SetLocal(ctx)
+		defer simrt.SetLocal(nil)
+	}
 	ctx.Nested = func() {
 		simrt.Nested(200000, func() {
 			np := kernel.Plan{Seed: ctx.Plan.Seed ^ 0x5bd1e995, PredTruePct: 50, StateKeys: 2, MaxEvents: 60}
@@ -221,9 +241,11 @@ func verifParse(filename string, input []byte, o *parsersim.Opts, ctx *kernel.Ct
 		if e := recover(); e != nil {
 			esc, val, err = e, nil, nil
 		}
-		for _, x := range opts[len(opts):cap(opts)] {
-			if x != nil {
-				ctx.OptsModified = true
+		if o.SpareCap {
+			for _, x := range opts[len(opts):cap(opts)] {
+				if x != nil {
+					ctx.OptsModified = true
+				}
 			}
 		}
 %[7]s
